@@ -8,6 +8,7 @@ import (
 	"errors"
 	"fmt"
 	"math"
+	"regexp"
 	"strings"
 
 	geom "github.com/twpayne/go-geom"
@@ -79,6 +80,12 @@ func matches(k string, it *item) bool {
 	}
 }
 
+var ptrRE = regexp.MustCompile(`0x[0-9a-f]{6,}`)
+
+// scrub removes memory addresses from texts (some library errors format a
+// geometry with %v), so that results are comparable across processes.
+func scrub(s string) string { return ptrRE.ReplaceAllString(s, "0xPTR") }
+
 func errText(err error) string {
 	if err == nil {
 		return "<nil>"
@@ -87,7 +94,7 @@ func errText(err error) string {
 	if errors.As(err, &se) {
 		return "SyntaxError:" + se.Error()
 	}
-	return fmt.Sprintf("%T:%s", err, err.Error())
+	return scrub(fmt.Sprintf("%T:%s", err, err.Error()))
 }
 
 func fl(v float64) string { return fmt.Sprintf("%016x", math.Float64bits(v)) }
@@ -131,7 +138,7 @@ func canon(v any) string {
 		}
 		return "(" + strings.Join(parts, " ; ") + ")"
 	}
-	return fmt.Sprintf("%T:%v", v, v)
+	return scrub(fmt.Sprintf("%T:%v", v, v))
 }
 
 func canonGeom(g geom.T) string {
